@@ -221,6 +221,17 @@ def make_switching(kind: str, p: "Problem", seed: int, switch_at: int):
     def jac(x):
         return newjac(x) if st["on"] else Gr(x)
 
+    # half of the update functions rewrite the deque they were handed, entry by entry, and return that very
+    # object (a legitimate style: "rewrites the stored gradients"), the others return a fresh deque
+    inplace = random.Random(seed * 31 + 5).random() < 0.5
+
+    def _ret(G, Gn):
+        if not inplace:
+            return Gn
+        for i, gi in enumerate(Gn):
+            G[i] = gi
+        return G
+
     def upd(x, f0, f0_old, grad, X, G):
         from collections import deque
         k = st["calls"]
@@ -229,12 +240,12 @@ def make_switching(kind: str, p: "Problem", seed: int, switch_at: int):
             return f0, f0_old, grad, G
         st["on"] = True
         if kind == "rescale":
-            return f0 * scale, f0_old * scale, grad * scale, deque([g * scale for g in G])
+            return f0 * scale, f0_old * scale, grad * scale, _ret(G, deque([g * scale for g in G]))
         xprev = X[-1] if len(X) else x
         if kind == "indef":
-            return newfun(x), newfun(xprev), newjac(x), deque([newjac(xx) for xx in X])
+            return newfun(x), newfun(xprev), newjac(x), _ret(G, deque([newjac(xx) for xx in X]))
         return (f0 + 0.5 * w_new * float(np.dot(x, x)), f0_old + 0.5 * w_new * float(np.dot(xprev, xprev)),
-                grad + w_new * x, deque([g + w_new * xx for g, xx in zip(G, X)]))
+                grad + w_new * x, _ret(G, deque([g + w_new * xx for g, xx in zip(G, X)])))
     return fun, jac, upd, newfun, newjac, st
 
 
@@ -246,6 +257,16 @@ def make_update(kind: str, seed: int, switch_at: int):
     w_new = r.choice([0.5, 2.0, 10.0])
     scale = r.choice([0.25, 3.0])
 
+    inplace = random.Random(seed * 31 + 5).random() < 0.5
+
+    def _ret(G, Gn):
+        # in place: the deque handed in is rewritten entry by entry and returned itself
+        if not inplace:
+            return Gn
+        for i, gi in enumerate(Gn):
+            G[i] = gi
+        return G
+
     def upd(x, f0, f0_old, grad, X, G):
         from collections import deque
         k = state["calls"]
@@ -253,15 +274,15 @@ def make_update(kind: str, seed: int, switch_at: int):
         if kind == "identity" or k != switch_at:
             return f0, f0_old, grad, G
         if kind == "rescale":
-            return f0 * scale, f0_old * scale, grad * scale, deque([g * scale for g in G])
+            return f0 * scale, f0_old * scale, grad * scale, _ret(G, deque([g * scale for g in G]))
         if kind == "reweight":
             Gn = deque([g + w_new * xx for g, xx in zip(G, X)])
             gradn = grad + w_new * x
-            return f0 + 0.5 * w_new * float(x @ x), f0_old, gradn, Gn
+            return f0 + 0.5 * w_new * float(x @ x), f0_old, gradn, _ret(G, Gn)
         if kind == "break":
             # arbitrary rewrite that breaks curvature for a subset of pairs
             Gn = deque([(-g if (i % 2 == 0) else g) for i, g in enumerate(G)])
-            return f0, f0_old, grad, Gn
+            return f0, f0_old, grad, _ret(G, Gn)
         raise ValueError(kind)
     return upd
 
